@@ -1131,6 +1131,14 @@ def run(ctx):
 
     col = Collector()
     cov = {}
+    import time
+    timing = {"lean_and_builds_s": round(time.time() - ctx.t0, 1)}
+
+    def timed(name, f, *a):
+        t = time.time()
+        r = f(*a)
+        timing[name + "_s"] = round(time.time() - t, 1)
+        return r
     replay = None
     if ctx.replay:
         replay = json.load(open(ctx.replay))
@@ -1140,21 +1148,21 @@ def run(ctx):
     ph = replay.get("phase") if replay else None
     rcases = replay.get("cases") if replay else None
     if ph in (None, "load"):
-        e, n = phase_load(ctx, probe, real_names, default_checks, col, cov, rcases)
+        e, n = timed("load", phase_load, ctx, probe, real_names, default_checks, col, cov, rcases)
         evaluations += e
         nontrivial += n
     if ph in (None, "merge"):
-        e, n = phase_merge(ctx, probe, col, cov, rcases)
+        e, n = timed("merge", phase_merge, ctx, probe, col, cov, rcases)
         evaluations += e
         nontrivial += n
     if ph in (None, "corpus"):
-        evaluations += phase_corpus(ctx, binary, real_names, col, cov)
+        evaluations += timed("corpus", phase_corpus, ctx, binary, real_names, col, cov)
     if ph in (None, "cli"):
-        e, n = phase_cli(ctx, binary, probe, real_names, default_checks, col, cov, rcases)
+        e, n = timed("cli", phase_cli, ctx, binary, probe, real_names, default_checks, col, cov, rcases)
         evaluations += e
         nontrivial += n
     if ph in (None, "binmerge"):
-        evaluations += phase_binary_merge(ctx, binary, probe, real_names, col, cov)
+        evaluations += timed("binmerge", phase_binary_merge, ctx, binary, probe, real_names, col, cov)
 
     if col.internal:
         raise vlib.HarnessError("the Lean model and the Python oracle disagree with each other (check machinery is inconsistent): %s"
@@ -1171,6 +1179,7 @@ def run(ctx):
                 "or an ignored problem is shown; cli: some package prints a non-empty proper subset of its problems",
         "samples": samples,
         "phases": cov,
+        "timing": timing,
         "real_analyzers": len(real_names),
         "default_checks": default_checks,
     })
